@@ -18,6 +18,11 @@ class ToolError(Exception):
     pass
 
 
+class CodeHang(Exception):
+    """A synchronous driver was stuck inside a call into the code under test (its watchdog reported `code_hang`):
+    the call never returned.  bin/check reports this as a violation of the property being checked."""
+
+
 def log(*a):
     print(*a, flush=True)
 
@@ -171,6 +176,12 @@ def tlc_trace(module, cfg, tracefile, tag, timeout=900, env=None):
 
 def hv(binary, args, timeout=900):
     rc, out = sh([binary] + args, cwd=ROOT, timeout=timeout)
+    if rc == 4:
+        js = [l for l in out.splitlines() if l.startswith("{") and "code_hang" in l]
+        if js:
+            h = json.loads(js[-1])
+            raise CodeHang("the code under test did not return from a call for %d s (driver %s; last event written: %s)" % (
+                h.get("secs", 0), " ".join(args), h.get("last_event", "")))
     if rc != 0:
         raise ToolError("harness %s failed (%d):\n%s" % (" ".join(args[:2]), rc, out[-3000:]))
     last = [l for l in out.splitlines() if l.startswith("{")]
